@@ -15,7 +15,7 @@ CHECKS = {
  "C03": dict(cat=E, ref="§5 C03", tech=SSE + "(all bit flips, truncations, extensions, record sequences, header/chunk exchange) + " + PBT + "of multi-step mutation programs + libFuzzer targets (thorough); oracle: accepted => complete plaintext of the governing authentic file and file authentic outside counter fields",
    text="Authentic pools built with the implementation's own encryptor (key mode, password mode, hooked chunk loop with tiny chunks); every single-bit flip / proper prefix / 1-byte extension / record rearrangement / header-field or chunk-range splice of the enumerated files, and generated programs over larger pools incl. 64 KiB chunks.",
    note="AEAD forgery probability 2^-128 ignored; counter-field edits may be accepted or rejected; password-mode chunk areas mostly go through the hooked loop with the real derived key (4 % and all header edits through pass_decrypt)."),
- "C04": dict(cat=E, ref="§5 C04", tech=SSE + "and " + PBT + "of mutated/authentic files presented through a 1-byte-dribble reader to a recording sink, with injected I/O faults; oracle: invariant over the interleaved read/write event log",
+ "C04": dict(cat=E, ref="§5 C04", tech=SSE + "and " + PBT + "of mutated/authentic files presented through a 1-byte-dribble reader to a recording sink, with injected I/O faults; libFuzzer target keyfile_mut (thorough); oracle: invariant over the interleaved read/write event log",
    text="For every presented file the event log must show: sink content is a prefix of the authentic plaintext made of chunks authentic in the presented file; no byte of chunk j written before the reader delivered the end of record j; whole chunks only; Ok only for the authentic file, fully read to EOF; nothing written after a reported fault.",
    note="Authentic = produced by the implementation's encryptor; write-before-trailing-data-probe order is not asserted (the statement does not forbid it)."),
  "C05": dict(cat=E, ref="§5 C05", tech=PBT + "over constructed forgery classes (real encryptor with mismatched keys, specification-built handshakes, field splices, all 14 small-order encodings); oracle: outcome fixed by construction",
@@ -94,6 +94,7 @@ def main():
                   "baseline_off_cmd": "cd /repo && cargo test --workspace --no-fail-fast --offline", "source_commits": hook_shas, "add_only": True},
         "engines": [
             {"name": "kverif", "path": "/verif/crates/kverif", "serves_properties": sorted(CHECKS), "kind_free_text": "Rust binary: seeded proptest TestRunners on 16 worker threads (shrinking, replay files) + small-scope exhaustive enumerators sharing the same oracle functions; scripted Read/Write objects with an event log; counting allocator; CLI process driver"},
+            {"name": "fuzz", "path": "/verif/fuzz", "serves_properties": ["C03", "C04", "C09", "C15", "C17", "C18", "C19"], "kind_free_text": "cargo-fuzz crate with 7 libFuzzer targets (ASan) whose bodies hold the semantic oracle of the property selected by KFUZZ_PROP; bounded campaigns in the thorough tier (fuzz/run.sh), seeds in /verif/corpus, crash artefacts become replay files"},
             {"name": "kspec", "path": "/verif/crates/kspec", "serves_properties": ["C05", "C06", "C15", "C17", "C18", "C19"], "kind_free_text": "independent executable specification (SHA-256, HMAC, HKDF, PBKDF2, scrypt, ChaCha20-Poly1305, X25519, Noise X, file/keyring formats, acceptance models) written from the RFCs; RFC vectors self-test at every start"},
         ],
         "checks": checks,
